@@ -1,6 +1,6 @@
 CONSTANTS NP = 3
   Names <- Names2
-  Hws <- Hws1
+  Hws <- Hws2
   Sts <- St2
   ProbeNames <- PNames
   ProbeHws <- PHws
@@ -9,11 +9,12 @@ CONSTANTS NP = 3
   D = 0
 INIT Init
 NEXT Next
-VIEW view
+VIEW viewE
 INVARIANT TypeOK
 INVARIANT CurIsOrigPlusNotes
 INVARIANT UntouchedAsReported
 INVARIANT ObservedTruth
+PROPERTY ObservedTruthA
 PROPERTY OnlyNamedPort
 PROPERTY FeaturesStartOver
 PROPERTY OthersLeaveAlone
